@@ -46,7 +46,7 @@ def cases(ctx):
         if i % 5 == 0 and tx["ins"]:
             # scripts handed over as element lists in which a balanced conditional is kept as FLAT opcodes (possible through
             # from_script_bits / push): same wire bytes as the nested form, different element list
-            flat = r.choice([[{"op": 81}, {"op": 99}, {"op": 82}, {"op": 104}], [{"op": 99}, {"op": 104}], [{"op": 0}, {"op": 100}, {"op": 97}, {"op": 103}, {"op": 81}, {"op": 104}, {"push": "aabb"}],
+            flat = r.choice([[{"push": ""}], [{"op": 81}, {"push": ""}, {"op": 117}], [{"push": "ab" * 76}], [{"push": "cd" * 300}, {"op": 117}], [{"op": 81}, {"op": 99}, {"op": 82}, {"op": 104}], [{"op": 99}, {"op": 104}], [{"op": 0}, {"op": 100}, {"op": 97}, {"op": 103}, {"op": 81}, {"op": 104}, {"push": "aabb"}],
                              [{"op": 81}, {"op": 99}, {"op": 99}, {"op": 104}, {"op": 104}], [{"push": "01"}, {"op": 99}, {"if": 99, "pass": [{"op": 81}], "fail": None}, {"op": 104}]])
             c2 = {"k": "tx", "tx": wire.tx_encode(tx).hex(), "ext": ext, "flat": True}
             if not wire.is_coinbase_in(tx["ins"][0]):
